@@ -1,22 +1,18 @@
 #!/bin/bash
-# development aid: apply every semantics-preserving patch of selftest/harmless/ to a scratch worktree and run the Verus units on it.
-# A "failed" verification here is a FALSE ALARM of the machinery (lost anchors / tool errors only degrade a check, never alarm).
+# development aid: apply every semantics-preserving patch of selftest/harmless/ to a scratch worktree and run all Verus units on it
+# through the driver (`./run labels`: same lost-anchor / tool-error / loop-shape guards as `./run check`).
+# A FAIL line here is a FALSE ALARM of the machinery; DEGRADED lines are allowed (undecided, never an alarm).
 WT=/tmp/harmless_wt
 git -C /repo worktree remove --force $WT >/dev/null 2>&1
 git -C /repo worktree add -q --detach $WT HEAD || exit 9
 bad=0
 for p in /verif/selftest/harmless/*.diff; do
   cd $WT && git checkout -q -- . && git apply "$p" 2>/dev/null || { echo "$(basename $p): does not apply to HEAD (skipped)"; continue; }
-  for u in walk flex flexmut vec io_blocking io_async portable_ops; do
-    all=$(cd /verif && python3 tools/unit.py $u --repo $WT 2>&1)
-    echo "$all" | grep -E "^LOST LABEL" | sed "s/^/$(basename $p) [$u] one label degraded: /" | cut -c1-170
-    out=$(echo "$all" | grep -E "^(verified=|ERR|LOST ANCHOR|TOOL)" | head -2)
-    case "$out" in
-      verified=*" failed=0 "*) ;;
-      LOST*|*TOOL*) echo "$(basename $p) [$u] degraded: $(echo "$out" | head -1 | cut -c1-120)";;
-      *) echo "$(basename $p) [$u] FALSE ALARM: $(echo "$out" | tail -1 | cut -c1-160)"; bad=1;;
-    esac
-  done
+  out=$(cd /verif && VERIF_REPO=$WT VERIF_WORK=/verif/.work/harmless ./run labels 2>&1 | grep -E "^(FAIL|DEGRADED|INCONCLUSIVE)")
+  echo "$out" | grep -E "^DEGRADED" | sed "s/^/$(basename $p): /" | cut -c1-200
+  if echo "$out" | grep -qE "^FAIL"; then echo "$out" | grep -E "^FAIL" | sed "s/^/$(basename $p): FALSE ALARM /" | cut -c1-240; bad=1; fi
 done
 git -C /repo worktree remove --force $WT
+rm -rf /verif/.work/harmless
+echo "harmless check done, false alarms: $bad"
 exit $bad
